@@ -96,24 +96,41 @@ Fixpoint map_opt {A B} (f : A -> option B) (l : list A) : option (list B) :=
 (* len(ks) > 0 && len(ks[0]) == 0 *)
 Definition head_is_empty (out : list (list N)) : bool :=
   match out with [] :: _ => true | _ => false end.
-(* one loop iteration; [first] = (i == 0), [last] = (i == len(keys)-1); [k] is the memcomparable-decoded key *)
-Definition dbk_step (c : ks) (first last : bool) (out : list (list N)) (k : list N) : list (list N) :=
+(* one loop iteration; [first] = (i == 0), [last] = (i == len(keys)-1); [k] is the memcomparable-decoded key.
+   [fixed = true] is the code as it is now; [fixed = false] is the loop before repair bbcfa45 (F34), which did not
+   treat a last key above the keyspace but below endKey as the unbounded end. *)
+Definition dbk_step_gen (fixed : bool) (c : ks) (first last : bool) (out : list (list N)) (k : list N) : list (list N) :=
   if first && lex_ltb k (prefix c) then out ++ [[]]
-  else if last && (nilb k || lex_leb (end_key c) k) then out ++ [[]]
+  else if last && (nilb k || lex_leb (end_key c) k || (fixed && negb (has_prefix (prefix c) k) && lex_ltb (prefix c) k)) then out ++ [[]]
   else if has_prefix (prefix c) k then
     let raw := skipn (length (prefix c)) k in
     if nilb raw && head_is_empty out then out else out ++ [raw]
   else out.
+Definition dbk_step := dbk_step_gen true.
 Definition nilb_l (r : list (list N)) : bool := match r with [] => true | _ => false end.
-Fixpoint dbk (c : ks) (first : bool) (out : list (list N)) (rest : list (list N)) : list (list N) :=
+Fixpoint dbk_gen (fixed : bool) (c : ks) (first : bool) (out : list (list N)) (rest : list (list N)) : list (list N) :=
   match rest with
   | [] => out
-  | k :: r => dbk c false (dbk_step c first (nilb_l r) out k) r
+  | k :: r => dbk_gen fixed c false (dbk_step_gen fixed c first (nilb_l r) out k) r
   end.
+Definition dbk := dbk_gen true.
 Definition decode_bucket_keys (c : ks) (keys : list (list N)) : option (list (list N)) :=
   match map_opt mem_decode_opt keys with
   | None => None
   | Some ks => Some (dbk c true [] ks)
+  end.
+
+(* ---------- CodecPDClient.decodeScannedRegions: a scan answer (memcomparable bounds) ---------- *)
+(* regions outside the keyspace are skipped (repair 163e34b, F35); a malformed bound fails the scan *)
+Fixpoint decode_scan (c : ks) (regs : list (list N * list N)) : option (list (list N * list N)) :=
+  match regs with
+  | [] => Some []
+  | (s, e) :: r =>
+      match decode_region_range c s e with
+      | RDecodeErr => None
+      | ROutOfBound => decode_scan c r
+      | ROk s' e' => match decode_scan c r with Some t => Some ((s', e') :: t) | None => None end
+      end
   end.
 
 (* ---------- ParseKeyspaceID (checkV2Key + the low three bytes) ---------- *)
